@@ -39,6 +39,9 @@ def Acc.init (coins : List Bool) : Acc := { coins := fun i => coins.getD i false
 def Acc.draw (a : Acc) (lvl : Nat) : Acc :=
   { a with used := a.used + 1, lv := a.lv ++ [lvl] }
 
+/-- the draw of a compactor constructor of level `lvl` (only in the shape with a random initial coin) -/
+def Acc.drawIf (a : Acc) (b : Bool) (lvl : Nat) : Acc := if b then a.draw lvl else a
+
 /-- bookkeeping after one `compact` of a level-`lvl` compactor -/
 def Acc.afterCompact (a : Acc) (lvl : Nat) (fresh oddConst rangeOk : Bool) : Acc :=
   let a1 := if fresh then a.draw lvl else a
@@ -52,13 +55,14 @@ def sumCap (T : Tun) (cs : List (Compactor ρ)) : Nat := (cs.map (Compactor.nomC
 def sumItems (cs : List (Compactor ρ)) : Nat := (cs.map Compactor.numItems).sum
 
 /-- `grow()`: new compactor with `lg_weight = get_num_levels()`, then `update_max_nom_size()` -/
-def Sketch.grow (T : Tun) (F : SecFns ρ) (s : Sketch ρ) : Sketch ρ :=
-  let cs := s.compactors ++ [Compactor.mk' T F s.hra s.compactors.length s.k]
+def Sketch.grow (T : Tun) (F : SecFns ρ) (s : Sketch ρ) (d : Bool) : Sketch ρ :=
+  let cs := s.compactors ++ [Compactor.mkC T F s.hra s.compactors.length s.k d]
   { s with compactors := cs, maxNomSize := sumCap T cs }
 
-def Sketch.new (T : Tun) (F : SecFns ρ) (k : Nat) (hra : Bool) : Sketch ρ :=
+/-- the constructor; `d` = the coin the level-0 compactor's constructor draws (if it draws) -/
+def Sketch.new (T : Tun) (F : SecFns ρ) (k : Nat) (hra : Bool) (d : Bool) : Sketch ρ :=
   Sketch.grow T F { k := effectiveK T k, hra := hra, maxNomSize := 0, numRetained := 0, n := 0, compactors := [],
-                    minItem := none, maxItem := none }
+                    minItem := none, maxItem := none } d
 
 /-- counters threaded through `compress` (as coded they are updated incrementally) -/
 structure Ctr where
@@ -69,10 +73,13 @@ structure Ctr where
 def sortIf0 (h : Nat) (c : Compactor ρ) : Compactor ρ := if h = 0 then c.sort else c
 
 /-- `compactors_[h + 1]`, after `grow()` if `h` is the top level -/
-def nextOf (T : Tun) (F : SecFns ρ) (hra : Bool) (k h : Nat) (rest : List (Compactor ρ)) : Compactor ρ :=
+def nextOf (T : Tun) (F : SecFns ρ) (hra : Bool) (k h : Nat) (rest : List (Compactor ρ)) (d : Bool) : Compactor ρ :=
   match rest with
-  | [] => Compactor.mk' T F hra (h + 1) k
+  | [] => Compactor.mkC T F hra (h + 1) k d
   | n :: _ => n
+
+/-- the coin cursor after `grow()` at the top (the new compactor's constructor draws first, then `compact`) -/
+def Acc.growDraw (T : Tun) (a : Acc) (top : Bool) (lvl : Nat) : Acc := if top then a.drawIf T.initCoinRandom lvl else a
 
 /-- `grow()` at the top: `update_max_nom_size()` (a recomputation: the sum changes by the new compactor's capacity) -/
 def ctrGrow (T : Tun) (ctr : Ctr) (top : Bool) (nx : Compactor ρ) : Ctr :=
@@ -90,9 +97,9 @@ def compressLoop (T : Tun) (F : SecFns ρ) (hra : Bool) (k : Nat) :
   | _ + 1, _, [], ctr, acc => ([], ctr, acc)
   | fuel + 1, h, c :: rest, ctr, acc =>
     if c.numItems ≥ c.nomCap T then
-      let r := (sortIf0 h c).compact T F (nextOf T F hra k h rest) acc.peek
-      let acc2 := acc.afterCompact (sortIf0 h c).lgWeight r.fresh r.oddConst r.rangeOk
-      let ctr2 := ctrAfter (ctrGrow T ctr rest.isEmpty (nextOf T F hra k h rest)) r
+      let r := (sortIf0 h c).compact T F (nextOf T F hra k h rest acc.peek) (acc.growDraw T rest.isEmpty (h + 1)).peek
+      let acc2 := (acc.growDraw T rest.isEmpty (h + 1)).afterCompact (sortIf0 h c).lgWeight r.fresh r.oddConst r.rangeOk
+      let ctr2 := ctrAfter (ctrGrow T ctr rest.isEmpty (nextOf T F hra k h rest acc.peek)) r
       if T.lazy && ctr2.retained < ctr2.maxNom then
         (r.cur :: r.nxt :: rest.tail, ctr2, acc2)
       else
@@ -133,9 +140,11 @@ def Sketch.update (T : Tun) (F : SecFns ρ) (s : Sketch ρ) (x : Int) (acc : Acc
   if (s.append1 x).numRetained = (s.append1 x).maxNomSize then (s.append1 x).compress T F acc else (s.append1 x, acc)
 
 /-- `while (get_num_levels() < other.get_num_levels()) grow()` -/
-def growTo (T : Tun) (F : SecFns ρ) : Nat → Nat → Sketch ρ → Sketch ρ
-  | 0, _, s => s
-  | fuel + 1, target, s => if s.compactors.length < target then growTo T F fuel target (s.grow T F) else s
+def growTo (T : Tun) (F : SecFns ρ) : Nat → Nat → Sketch ρ → Acc → Sketch ρ × Acc
+  | 0, _, s, acc => (s, acc)
+  | fuel + 1, target, s, acc =>
+    if s.compactors.length < target then growTo T F fuel target (s.grow T F acc.peek) (acc.drawIf T.initCoinRandom s.compactors.length)
+    else (s, acc)
 
 /-- level-wise `compactors_[i].merge(other.compactors_[i])` for `i < other.get_num_levels()` -/
 def mergeLevels (T : Tun) (F : SecFns ρ) : List (Compactor ρ) → List (Compactor ρ) → List (Compactor ρ)
@@ -154,18 +163,19 @@ def optMaxO (a b : Option Int) : Option Int :=
   | some y => optMax a y
 
 /-- `merge(other)` up to (not including) the final capacity check: extremes, grow, level-wise merge, recomputed counters -/
-def Sketch.mergePre (T : Tun) (F : SecFns ρ) (s o : Sketch ρ) : Sketch ρ :=
-  let s1 := growTo T F o.compactors.length o.compactors.length s
-  let cs := mergeLevels T F s1.compactors o.compactors
-  { s1 with minItem := optMinO s.minItem o.minItem, maxItem := optMaxO s.maxItem o.maxItem,
-            compactors := cs, n := s.n + o.n, maxNomSize := sumCap T cs, numRetained := sumItems cs }
+def Sketch.mergePre (T : Tun) (F : SecFns ρ) (s o : Sketch ρ) (acc : Acc) : Sketch ρ × Acc :=
+  let g := growTo T F o.compactors.length o.compactors.length s acc
+  let cs := mergeLevels T F g.1.compactors o.compactors
+  ({ g.1 with minItem := optMinO s.minItem o.minItem, maxItem := optMaxO s.maxItem o.maxItem,
+              compactors := cs, n := s.n + o.n, maxNomSize := sumCap T cs, numRetained := sumItems cs }, g.2)
 
 /-- `merge(other)`; `none` = throws (HRA/LRA mismatch; nothing changed) -/
 def Sketch.merge (T : Tun) (F : SecFns ρ) (s o : Sketch ρ) (acc : Acc) : Option (Sketch ρ × Acc) :=
   if s.hra != o.hra then none
   else if o.n = 0 then some (s, acc)
-  else if (s.mergePre T F o).numRetained ≥ (s.mergePre T F o).maxNomSize then some ((s.mergePre T F o).compress T F acc)
-  else some (s.mergePre T F o, acc)
+  else if (s.mergePre T F o acc).1.numRetained ≥ (s.mergePre T F o acc).1.maxNomSize then
+    some ((s.mergePre T F o acc).1.compress T F (s.mergePre T F o acc).2)
+  else some (s.mergePre T F o acc)
 
 /-! ### queries -/
 
